@@ -37,7 +37,7 @@ def run(tier):
     crowd = [cpool.apply_async(driver_sched.crowd_run, (common.seed() * 7 + 608 + i, 2 * 10**6 + i)) for i in range(ncrowd)]
     traces = driver_sim.gen_traces(N[tier], common.seed() + 606, procs=common.NCPU - min(ncrowd, 6))
     # DAG pipelines (incl. identical parallel sinks that finish in one tick in different containers) through all policies
-    extra = driver_sched.gen_traces(N[tier] // 4, common.seed() + 607, flavours=(("mixed", 0.35), ("twins", 0.35), ("fast", 0.3)))
+    extra = driver_sched.gen_traces(N[tier] // 4, common.seed() + 607, flavours=(("mixed", 0.3), ("twins", 0.25), ("fast", 0.25), ("preempt", 0.2)))          # (preempt: runs that end while a suspended container is still being written out)
     for tr in extra:
         for e in tr:
             e["tid"] += 10**6
